@@ -424,6 +424,12 @@ def variants(cls, base):
         for v in VALS:
             w = list(base); w[di] = dict(base[di]); w[di][k] = v
             yield w
+    if PAIRS:
+        singles = [(k, v) for k in KEYS[cls] for v in VALS]
+        for (k1, v1), (k2, v2) in itertools.combinations(singles, 2):
+            if k1 != k2:
+                w = list(base); w[di] = dict(base[di]); w[di][k1] = v1; w[di][k2] = v2
+                yield w
     for role in list(base[di]["roles"]) + ["bogus"]:
         for v in VALS:
             w = list(base); w[di] = dict(base[di]); w[di]["roles"] = dict(base[di]["roles"]); w[di]["roles"][role] = v
@@ -530,7 +536,8 @@ def extra_checks(tier, seed):
     import time
     from pyvc import replaylib as Rp
     t0 = time.time()
-    out = Rp.run_py(_BOUNDED_HARNESS, timeout=300)
+    pairs = tier == "thorough"
+    out = Rp.run_py("PAIRS = %r\n" % pairs + _BOUNDED_HARNESS, timeout=1800)
     ok = isinstance(out, dict) and out.get("cases", 0) > 1000 and out.get("bad") == []
     crashed = not isinstance(out, dict) or "cases" not in out
     res = []
@@ -553,7 +560,8 @@ def extra_checks(tier, seed):
         res.append({"name": "C08/bounded/%s.parse" % cls, "kind": "bounded", "status": "refuted" if bads else "proved",
                     "bounded": True, "backend": "enumeration on the real code", "time": round(time.time() - t0, 2),
                     "bound": "every single-position / single-option / single-role replacement by 27 values of every JSON / CBOR "
-                             "type, of the base messages (pairs of replacements not covered)",
+                             "type, of the base messages" + (" and every pair of option replacements" if pairs else
+                                                             " (pairs of replacements: thorough tier only)"),
                     "cases": out.get("cases"), "info": {"detail": str(bads)[:600]},
                     "replay": {"reproduced": bool(bads), "cases": bads[:4],
                                "detail": "inputs found by the bounded enumeration, run on the real parse()"}})
